@@ -194,11 +194,12 @@ EXH_TREES = ("a + b", "f(x, y)")
 EXH_OPS = ("hash", "replace", "pop", "set_this", "append", "set_index", "set_index_overwrite", "set_none", "transform_inplace", "copy_root", "replace_by_list")
 
 
-def exhaustive(res, length):
+def exhaustive(res, length, part=0, parts=1):
     specs = [{"op": o, "node": n, "new": 0, "idx": i, "flag": fl} for o in EXH_OPS for n in range(4) for i in (0, 1) for fl in (False, True) if not (o in ("hash", "pop", "copy_root", "set_this") and (i or fl))]
     count = 0
     for start in EXH_TREES:
-        for hist in itertools.product(specs, repeat=length):
+        # sharded by the first operation so the thorough tier spreads the enumeration over all cores
+        for hist in itertools.product([sp for i, sp in enumerate(specs) if i % parts == part], *([specs] * (length - 1))):
             case = {"start": start, "ops": list(hist), "probe": 1}
             for b, d in run_history(case, res):
                 res.fail(b, case, d)
@@ -226,7 +227,7 @@ def corpus(res, part, parts):
 def plan(tier):
     if tier == "quick":
         return [{"kind": "hist", "n": 260, "depth": 3, "len": 25}] * 10 + [{"kind": "out", "n": 60, "depth": 3}] * 4 + [{"kind": "exh", "len": 2}] + [{"kind": "corpus", "part": i, "parts": 4} for i in range(4)]
-    return [{"kind": "hist", "n": 1500, "depth": 3, "len": 40}] * 32 + [{"kind": "out", "n": 400, "depth": 4}] * 14 + [{"kind": "exh", "len": 3}] + [{"kind": "corpus", "part": i, "parts": 8} for i in range(8)]
+    return [{"kind": "hist", "n": 1500, "depth": 3, "len": 40}] * 32 + [{"kind": "out", "n": 400, "depth": 4}] * 14 + [{"kind": "exh", "len": 3, "part": i, "parts": 32} for i in range(32)] + [{"kind": "corpus", "part": i, "parts": 8} for i in range(8)]
 
 
 def run_shard(spec, seed, res, only_bucket=None):
@@ -237,7 +238,7 @@ def run_shard(spec, seed, res, only_bucket=None):
     if spec["kind"] == "corpus":
         corpus(res, spec["part"], spec["parts"])
         return None
-    n = exhaustive(res, spec["len"])
+    n = exhaustive(res, spec["len"], spec.get("part", 0), spec.get("parts", 1))
     res.extra["exhaustive_histories"] = n
     res.exhaustive = False  # only the short-history sub-space is exhaustive, see coverage.exhaustive_histories
     return None
